@@ -42,6 +42,11 @@
 (*   Dev_ArmIgnoresClose  an arm of the reconnect loop that was entered    *)
 (*                        before Close() still reports Reconnecting after  *)
 (*                        Close reported Closed.                           *)
+(*   Dev_DrainDropsLoss   after the reconnect actions the monitor empties   *)
+(*                        sechanErr; the EOF of the NEW channel (lost while *)
+(*                        the last arm was running) is dropped with it and  *)
+(*                        the client stays "Connected" on a dead channel.   *)
+(*                        Contract: a loss of the current channel is kept.  *)
 (***************************************************************************)
 EXTENDS Naturals, Sequences, FiniteSets, TLC, Json
 
@@ -56,6 +61,7 @@ CONSTANTS
   AutoReconnect,   \* uasc.Config.AutoReconnect
   SrvTransfers,    \* TRUE: server implements TransferSubscriptions/Republish (gopcua server: FALSE)
   Dev_BlockingSignals, Dev_SplitSignals, Dev_RestoreNoResume, Dev_RecreateErrorLost, Dev_ArmIgnoresClose,
+  Dev_DrainDropsLoss,
   Hist             \* TRUE: keep the history variable (behaviour generation)
 
 VARIABLES
@@ -482,6 +488,9 @@ RsRep == IF restored /\ ~Dev_RestoreNoResume THEN (IF SrvTransfers THEN subs ELS
 RsRec == IF restored /\ ~Dev_RestoreNoResume THEN (IF SrvTransfers THEN {} ELSE subs) ELSE toRecreate \cap subs
 RsOk  == SessOk /\ ~ctxDone
 
+\* `for len(c.sechanErr) > 0 { <-c.sechanErr }` after the last arm, before the mon.done hook
+Drained == IF conn = "dead" /\ ~Dev_DrainDropsLoss THEN "eof" ELSE "none"
+
 RsFinish ==
   IF RsOk \/ RsRec = {}
     THEN /\ activeSubs' = Cardinality(RsRep) + Cardinality(RsRec)
@@ -501,8 +510,9 @@ MonRestoreSubs ==
             /\ UNCHANGED <<activeSubs, srvSubs, lost, state, action>>
        ELSE /\ (RsRec # {} => mux = "none") /\ UNCHANGED mux
             /\ RsFinish
+  /\ errq' = IF mpc' = "m.done" THEN Drained ELSE errq
   /\ Log("mon", "RestoreSubs", mpc')
-  /\ UNCHANGED <<subs, srvSess, conn, sess, errq, pausech, resumech, toRecreate, toRepublish, restored,
+  /\ UNCHANGED <<subs, srvSess, conn, sess, pausech, resumech, toRecreate, toRepublish, restored,
                  ctxDone, dials>> /\ UNCH_MON
 
 MonRecPause ==
@@ -518,14 +528,15 @@ MonRecFinish ==
   /\ mpc = "m.rpsent"
   /\ mux' = "none"
   /\ RsFinish
+  /\ errq' = IF mpc' = "m.done" THEN Drained ELSE errq
   /\ Log("mon", "RecFinish", mpc')
-  /\ UNCHANGED <<subs, srvSess, conn, sess, errq, pausech, resumech, toRecreate, toRepublish, restored,
+  /\ UNCHANGED <<subs, srvSess, conn, sess, pausech, resumech, toRecreate, toRepublish, restored,
                  ctxDone, dials>> /\ UNCH_MON
 
-\* mon.done: drain sechanErr, resume when activeSubs > 0
+\* mon.done (the hook sits after the drain of sechanErr, see Drained): resume when activeSubs > 0
 MonDone ==
   /\ mpc = "m.done"
-  /\ errq' = "none"
+  /\ UNCHANGED errq
   /\ mpc' = IF activeSubs > 0 THEN "m.rsend" ELSE "idle"
   /\ Log("mon", "Done", activeSubs)
   /\ UNCHANGED <<state, subs, srvSubs, srvSess, conn, sess, pausech, resumech, mux, action, activeSubs, toRecreate,
@@ -643,6 +654,9 @@ InvAfterClose == closedSeen => (state = "Closed" /\ dials = dialsAtClose)
 InvAllDoneAfterClose == (closedSeen /\ ~Progressing) => (lpc = "done" /\ mpc = "done")
 Reconnects == [](( AutoReconnect /\ ~closedSeen /\ faults = MaxFaults /\ srvUp)
                    => <>(closedSeen \/ (state = "Connected" /\ conn = "up")))
+
+\* a client that reports Connected with an idle monitor and nothing queued has a live channel
+InvNoSilentLoss == (state = "Connected" /\ mpc = "idle" /\ errq = "none" /\ ~ctxDone) => conn = "up"
 
 \* ---- C26 ----
 \* at Connected after a reconnect every registered subscription is alive on the server again
